@@ -276,6 +276,8 @@ def to_iter(e, v):
             return SliceIt(v.cell, v.proj, container_len(t))
         if isinstance(t, SetV):
             return ListIt([Ref(Cell(x)) for x in t.ordered(e)])
+        if isinstance(t, MapV):
+            return ListIt([Agg(None, [Ref(Cell(k)), Ref(Cell(x))]) for k, x in t.ordered(e)])
         if isinstance(t, EnumV) and t.ty == OPT:
             d = e.concretize(t.d, [0, 1])
             return ListIt([Ref(v.cell, v.proj + (('v', 'Some'), ('f', 0)))] if d == 1 else [])
@@ -289,6 +291,10 @@ def to_iter(e, v):
         return ListIt([v.p[1][0]] if d == 1 else [])
     if isinstance(v, TS):
         return ListIt([tok_to_tree(e, t) for t in v.items])
+    if isinstance(v, MapV):
+        return ListIt([Agg(None, [k, x]) for k, x in v.ordered(e)])
+    if isinstance(v, SetV):
+        return ListIt(list(v.ordered(e)))
     raise Unsupported('into_iter of %r' % (v,))
 
 
@@ -474,7 +480,18 @@ def m_collect(e, args, info):
         for x in items:
             to_tokens(e, x, ts)
         return ts
-    return VecV(items)
+    if target.startswith('std::collections::HashMap'):
+        mp = MapV()
+        for x in items:
+            ent = mp.find(e, x.f[0])
+            if ent is not None:
+                ent[1] = x.f[1]
+            else:
+                mp.entries.append([x.f[0], x.f[1]])
+        return mp
+    if target.startswith('std::vec::Vec'):
+        return VecV(items)
+    raise Unsupported('collect into ' + target)
 
 
 # =========================================================================== Option / Result / bool
@@ -808,11 +825,25 @@ def m_extend(e, args, info):
         v.items.append(x)
 
 
+def concretize_str(e, s):
+    """a concrete python string for a (possibly symbolic) string value; forks on the symbolic pieces"""
+    if isinstance(s, str):
+        return s
+    if isinstance(s, SymStr):
+        return s.uni[e.concretize(s.atom, list(range(len(s.uni))))]
+    if isinstance(s, FmtStr):
+        return ''.join(concretize_str(e, p) for p in s.parts)
+    raise Unsupported('string value %r' % (s,))
+
+
 @trait('Ord', 'cmp')
 def m_cmp(e, args, info):
     a, b = e.deref(args[0]), e.deref(args[1])
     if isinstance(a, int) and isinstance(b, int):
         return EnumV(ORD, (a > b) - (a < b), {})
+    if isinstance(a, (str, SymStr, FmtStr)) and isinstance(b, (str, SymStr, FmtStr)):
+        x, y = concretize_str(e, a), concretize_str(e, b)
+        return EnumV(ORD, (x > y) - (x < y), {})
     raise Unsupported('symbolic cmp')
 
 
@@ -1034,7 +1065,12 @@ def str_eq(a, b):
             return a.atom == b.atom
         conds = [z3.And(a.atom == i, b.atom == b.uni.index(s)) for i, s in enumerate(a.uni) if s in b.uni]
         return z3.Or(conds) if conds else False
-    # FmtStr: compare piecewise when shapes agree
+    # FmtStr against a concrete string: match the concrete pieces literally and every symbolic piece against its universe
+    if isinstance(a, FmtStr) and isinstance(b, str):
+        return fmt_match(a.parts, b)
+    if isinstance(b, FmtStr) and isinstance(a, str):
+        return fmt_match(b.parts, a)
+    # FmtStr vs FmtStr: compare piecewise when shapes agree
     pa = a.parts if isinstance(a, FmtStr) else [a]
     pb = b.parts if isinstance(b, FmtStr) else [b]
     if len(pa) != len(pb):
@@ -1049,6 +1085,27 @@ def str_eq(a, b):
         if c is not True:
             conds.append(c)
     return z3.And(conds) if conds else True
+
+
+def fmt_match(parts, text):
+    """condition under which the concatenation of parts (str | SymStr) equals text"""
+    if not parts:
+        return text == ''
+    p = parts[0]
+    if isinstance(p, str):
+        if not text.startswith(p):
+            return False
+        return fmt_match(parts[1:], text[len(p):])
+    alts = []
+    for i, v in enumerate(p.uni):
+        if text.startswith(v):
+            rest = fmt_match(parts[1:], text[len(v):])
+            if rest is False:
+                continue
+            alts.append((p.atom == i) if rest is True else z3.And(p.atom == i, rest))
+    if not alts:
+        return False
+    return z3.Or(alts) if len(alts) > 1 else alts[0]
 
 
 @trait('PartialEq', 'eq')
@@ -1525,6 +1582,22 @@ def m_bitor(e, args, info):
 @trait('CheckHasIterator', 'check')
 def m_check(e, args, info):
     return unit()
+
+
+@exact('proc_macro2::Group::new')
+def m_group_new(e, args, info):
+    d = args[0]
+    return GroupV(DELIMS[e.concretize(d.d, [0, 1, 2, 3])], args[1])
+
+
+@exact('proc_macro2::Group::set_span')
+def m_group_set_span(e, args, info):
+    return unit()
+
+
+@exact('proc_macro2::Group::span')
+def m_group_span(e, args, info):
+    return Opq('Span', 'group')
 
 
 @exact('proc_macro2::Group::delimiter')
